@@ -460,6 +460,41 @@ Section DOp.
   Theorem dop_number_zero lg i e r :
     is_number e = true -> dop lg i e = Some r -> sdf e -> sev r = 0.
   Proof. intros Hn Hr Se. rewrite (dop_sound _ _ _ _ Hr Se). now apply is_number_D. Qed.
+  (* ---------------------------------------------- compositions of operators, block by block *)
+  (* iterated derivation, outermost operator first (as [dops]) *)
+  Fixpoint Dops (ops : list (bool * nat)) (x : F S) : F S :=
+    match ops with
+    | [] => x
+    | (lg, i) :: r => Dd lg i (Dops r x)
+    end.
+
+  (* every argument met along the composition is defined *)
+  Fixpoint sdfs (ops : list (bool * nat)) (e : sx) : Prop :=
+    match ops with
+    | [] => True
+    | _ :: r => sdfs r e /\ match dops r e with Some e' => sdf e' | None => True end
+    end.
+
+  Theorem dops_sound ops : forall e e', dops ops e = Some e' -> sdfs ops e -> sev e' = Dops ops (sev e).
+  Proof.
+    induction ops as [|[lg i] r IH]; intros e e' H Hs.
+    - inversion H. reflexivity.
+    - cbn [dops] in H. cbn [sdfs] in Hs. destruct Hs as [Hr Hm].
+      destruct (dops r e) as [m|] eqn:Em; [|discriminate].
+      cbn [Dops]. rewrite <- (IH e m Em Hr). now apply dop_sound.
+  Qed.
+
+  Lemma Dops_app ops1 ops2 x : Dops (ops1 ++ ops2) x = Dops ops1 (Dops ops2 x).
+  Proof. induction ops1 as [|[lg i] r IH]; simpl; [reflexivity|now rewrite IH]. Qed.
+
+  (* two consecutive blocks: the value after the second block is the composition of the two
+     iterated derivations applied to the value of the input *)
+  Theorem dops_blocks_sound ops1 ops2 e m r :
+    dops ops2 e = Some m -> dops ops1 m = Some r -> sdfs ops2 e -> sdfs ops1 m ->
+    sev r = Dops ops1 (Dops ops2 (sev e)).
+  Proof.
+    intros H2 H1 S2 S1. rewrite (dops_sound _ _ _ H1 S1), (dops_sound _ _ _ H2 S2). reflexivity.
+  Qed.
 End DOp.
 
 (* canonical identity of re-ordered derivative chains: the atom does not depend on the order *)
@@ -481,3 +516,13 @@ Qed.
 (* refusal: a non-arithmetic function of an expression that contains a field *)
 Theorem dop_refuses lg i f a : has_field a = true -> dop lg i (SFn f a) = None.
 Proof. intros H. cbn [dop has_field]. rewrite H. reflexivity. Qed.
+
+(* a composition is computed block by block: applying [ops1 ++ ops2] (outermost first) is
+   applying the block [ops2] and then the block [ops1] to its result *)
+Theorem dops_app ops1 ops2 e :
+  dops (ops1 ++ ops2) e = match dops ops2 e with Some m => dops ops1 m | None => None end.
+Proof.
+  induction ops1 as [|[lg i] r IH]; simpl.
+  - destruct (dops ops2 e); reflexivity.
+  - rewrite IH. destruct (dops ops2 e); reflexivity.
+Qed.
